@@ -117,6 +117,10 @@ bool NaorPinkasEOTP::CheckGroup
 			throw false;
 		mpz_div(k, k, q);
 		
+		// Check whether $p$ and $q$ are positive.
+		if ((mpz_sgn(p) <= 0) || (mpz_sgn(q) <= 0))
+			throw false;
+
 		// Check whether $p$ and $q$ have appropriate sizes.
 		if ((mpz_sizeinbase(p, 2L) < F_size) || 
 			(mpz_sizeinbase(q, 2L) < G_size))
